@@ -35,8 +35,12 @@ def run(tier, rep):
         report(rep, "family_dyadic_d0", st, 0, JUDGE, family=True)
         st = run_family(pool, dec_jobs, JUDGE)
         report(rep, "family_decimal_normal_delays_d0", st, 0, JUDGE, family=True)
-        out = explore_many(pool, deep, bound, JUDGE)
-        report(rep, "schedules_sim", out, bound, JUDGE)
+        out = explore_many(pool, deep, 1, JUDGE)
+        report(rep, "schedules_sim_d1", out, 1, JUDGE)
+        if tier == "thorough":
+            d2 = {k: v for k, v in deep.items() if k[0] in ("H1", "H2.LATEST", "H2.BUFFER")}
+            out = explore_many(pool, d2, 2, JUDGE)
+            report(rep, "schedules_sim_d2", out, 2, JUDGE)
         out = explore_many(pool, wall, 1, JUDGE)
         report(rep, "schedules_wall_clock", out, 1, JUDGE)
     rep.section("family", dyadic_family_size=fam_size, dyadic_members_run=len(fam_jobs), decimal_members=len(dec), decimal_seeds=seeds,
